@@ -52,6 +52,7 @@ type Harness struct {
 	Expect   map[string]string // label -> known finding id expected to fail
 	Bounded  string
 	Contract *Contract
+	Real     map[string]bool // targets whose use-contracts are switched off in this harness (the real body runs)
 	Paths    bool // path-sensitive execution (no joins); infeasible paths are pruned with the solver
 }
 
@@ -219,7 +220,7 @@ func (w *World) readDirectives(pkg *ssa.Package, f *ast.File) error {
 					return fmt.Errorf("%s: lemma directive without function", where)
 				}
 				for _, g := range fns {
-					w.Harnesses = append(w.Harnesses, &Harness{Name: shortFn(g), Fn: g, Kind: "lemma", Props: props, Expect: parseExpect(kv["expect"]), Bounded: kv["bounded"], Paths: kv["mode"] == "paths"})
+					w.Harnesses = append(w.Harnesses, &Harness{Name: shortFn(g), Fn: g, Kind: "lemma", Props: props, Expect: parseExpect(kv["expect"]), Bounded: kv["bounded"], Paths: kv["mode"] == "paths", Real: realSet(kv["real"])})
 				}
 			case "contract":
 				if fn == nil {
@@ -303,6 +304,14 @@ func parseExpect(s string) map[string]string {
 		if i := strings.Index(x, ":"); i > 0 {
 			m[x[:i]] = x[i+1:]
 		}
+	}
+	return m
+}
+
+func realSet(s string) map[string]bool {
+	m := map[string]bool{}
+	for _, x := range splitList(s) {
+		m[x] = true
 	}
 	return m
 }
